@@ -334,6 +334,18 @@ def narrow_edge_jobs(rng, steps):
     return jobs
 
 
+MAX_PER_KEY = 8
+
+
+def viol(ctx, key, clause, case, what=""):
+    """ctx.violation with a per-key cap (core prints only the first 20 and saves the first 40 replay files: one
+    noisy class must not hide another); every hit is counted in evidence (violation_keys)"""
+    vk = ctx.extra.setdefault("violation_keys", {})
+    vk[key] = vk.get(key, 0) + 1
+    if vk[key] <= MAX_PER_KEY:
+        ctx.violation(key, clause, case, what)
+
+
 def narrow_int_class(j):
     """the eye height raster.values[y, x] + observer_elev is formed in the raster's (narrow) integer dtype when
     observer_elev is a Python int: returns "raise" (NumPy refuses the int), "wrap" (the sum leaves the range) or None"""
@@ -404,7 +416,7 @@ def handle_los(ctx, cases, mode):
             k = narrow_int_class(c["job"])
             key = "viewshed:int-observer-elev-raises-on-narrow-int-raster" if k == "raise" and \
                 "OverflowError" in c["error"] else "viewshed:call-raised"
-            ctx.violation(key, "call_raised", c["job"], "%s dtype=%s observer_elev=%r: %s"
+            viol(ctx, key, "call_raised", c["job"], "%s dtype=%s observer_elev=%r: %s"
                           % (c["job"].get("tag"), c["job"].get("dtype"), c["job"]["obs"], c["error"]))
     v = ctx.judge("ViewLOS_Judge", [strip_los(c) for c in ok], name="los_" + mode, stateful=True, workers=6,
                   parallel=8)
@@ -431,7 +443,7 @@ def handle_los(ctx, cases, mode):
                      "cell size (%d,%d)" % (c["H"], c["W"], c["vr"], c["vc"], c["ew"], c["ns"]))
         elif cl != "ok":
             j = c["job"]
-            ctx.violation(los_key(cl, c), cl, {"job": j, "observed": c["raw"]},
+            viol(ctx, los_key(cl, c), cl, {"job": j, "observed": c["raw"]},
                           "%s %dx%d observer=(%d,%d) obs_elev=%r target_elev=%r cell=(%d,%d)/%d dtype=%s layout=%s [%s]"
                           % (j["tag"], c["H"], c["W"], c["vr"], c["vc"], j["obs"], j["tgt"], c["ew"], c["ns"],
                              j.get("cscale", 1), j.get("dtype"), j.get("layout", "C"), mode))
@@ -454,7 +466,7 @@ def handle_sweep_trees(ctx, cases):
         where = "%dx%d observer (%d,%d) terrain %s" % (c["H"], c["W"], c["vr"], c["vc"], j["tag"])
         if cl == "query_semantics":
             # a wrong answer of the status structure on a sequence produced by a real sweep
-            ctx.violation("viewshed:status-query-wrong-in-real-sweep", cl, {"job": j},
+            viol(ctx, "viewshed:status-query-wrong-in-real-sweep", cl, {"job": j},
                           "query answered wrongly %s in the sweep of %s" % (ex, where))
         elif cl != "ok":
             ctx.report_drift("tree %s %s in the real sweep of %s" % (cl, ex, where))
@@ -590,9 +602,9 @@ def run(ctx):
     tree_jobs += sim_jobs(ctx, rng, ctx.pick(50, 600), ctx.pick(40, 60), 12)
     comp_jobs = los_jobs(rng, ctx.pick(9, 120), steps=False) + big_jobs(rng, ctx.pick(36, 500)) + \
         big_jobs(rng, ctx.pick(10, 100), sizes=[(17, 17), (21, 21)]) + \
-        precision_jobs(rng, ctx.pick(16, 200), steps=False) + variation_jobs(rng, ctx.pick(120, 2400), steps=False) + \
+        precision_jobs(rng, ctx.pick(16, 200), steps=False) + variation_jobs(rng, ctx.pick(100, 2400), steps=False) + \
         narrow_edge_jobs(rng, False)
-    interp_jobs = los_jobs(rng, ctx.pick(34, 300), steps=True, every_observer=False) + \
+    interp_jobs = los_jobs(rng, ctx.pick(30, 300), steps=True, every_observer=False) + \
         los_jobs(rng, ctx.pick(4, 30), steps=True, every_observer=True, sizes=[(3, 3), (4, 5), (5, 5)]) + \
         precision_jobs(rng, ctx.pick(8, 100), steps=True, per=4) + variation_jobs(rng, ctx.pick(24, 400), steps=True) + \
         narrow_edge_jobs(rng, True)
